@@ -157,7 +157,20 @@ def get_newly_imported_items(
     context = CodemodContext()
     gatherer = GatherImportsVisitor(context)
     source_module.visit(gatherer)
+    # symbol_mapping keeps one import per bound name (the last one): a name
+    # imported from two places (`try: from a import X` / `except ImportError:
+    # from b import X`) would leave the first import looking new. Take every
+    # import statement of the source.
     source_imports = list(gatherer.symbol_mapping.values())
+    source_imports += [ImportItem(module) for module in gatherer.module_imports]
+    source_imports += [
+        ImportItem(module, alias=alias)
+        for module, alias in gatherer.module_aliases.items()
+    ]
+    for module, objects in gatherer.object_mapping.items():
+        source_imports += [ImportItem(module, obj) for obj in objects]
+    for module, pairs in gatherer.alias_mapping.items():
+        source_imports += [ImportItem(module, obj, alias) for obj, alias in pairs]
 
     # Classes generated into the stub (TypedDict class stubs) are copied into the
     # source at module level: the names of their base classes are needed when the
